@@ -25,3 +25,123 @@ CONTRACT[PARSER + '__final_validation'] = dict(
     ensures=['implies(n_star(seq, 0, length(seq)) == 0, seq_eq(result, seq))',
              'implies(n_star(seq, 0, length(seq)) == 1, And(length(result) == length(seq) - 1, forall(lambda j: result[j] == seq[j], 0, length(seq) - 1)))'],
     lemmas=['n_star_nonneg(seq, 0, length(seq))'])
+
+
+# ----------------------------------------------------------------------------- C14.c: parseSeqFile for files of 0..3 lines
+# The NUMBER of lines is fixed per case (0, 1, 2, 3); every line is a symbolic string of any length and content.
+def file_of(m):
+    def build(it, case):
+        from pyvc.models import FileName
+        return FileName([it.fresh_seq('line%d' % i, 'str', 'char') for i in range(m)])
+    return build
+
+
+def _lines(filename):
+    return list(filename.lines)
+
+
+def prepare(v):
+    from pyvc import models
+    v.interp.spec_env['strip_of'] = lambda x: models.strip_seq(v.interp, x)
+    v.interp.spec_env['lines_of'] = _lines
+
+
+def _S(lines):
+    from pyvc.speclib import memo
+    return lines
+
+
+def is_header(S):
+    from pyvc.speclib import And, length
+    return And(length(S) > 0, S[0] == '>')
+
+
+def is_seqline(S):
+    from pyvc.speclib import And, Not, length
+    return And(length(S) > 0, Not(S[0] == '>'))
+
+
+def bad_line(S):
+    from pyvc.speclib import And, Not, exists, length
+    from .common import keep_file, skip_file
+    return And(is_seqline(S), exists(lambda j: And(Not(keep_file(S[j])), Not(skip_file(S[j]))), 0, length(S)))
+
+
+def two_headers(Ss):
+    from pyvc.speclib import And, Or
+    alts = [And(is_header(Ss[i]), is_header(Ss[k])) for i in range(len(Ss)) for k in range(i + 1, len(Ss))]
+    return Or(*alts) if alts else False
+
+
+def any_bad(Ss):
+    from pyvc.speclib import Or
+    alts = [bad_line(S) for S in Ss]
+    return Or(*alts) if alts else False
+
+
+def total_stars(Ss):
+    from pyvc.speclib import ite, length
+    from .common import n_star
+    t = 0
+    for S in Ss:
+        t = t + ite(is_seqline(S), lambda S=S: n_star(S, 0, length(S)), lambda: 0)
+    return t
+
+
+def parsed_ok(R, Ss):
+    """R is exactly the residue letters of the sequence lines, in order: only residue letters occur in R; the j-th character of
+    sequence line i, if it is a residue letter, stands at (kept characters of earlier sequence lines) + (kept characters before j);
+    the length is the number of kept characters, less one for the single final '*' if there is one"""
+    from pyvc.speclib import And, Not, forall, implies, ite, length
+    from .common import keep_file, n_keep
+    off = 0
+    parts = [forall(lambda x: And(keep_file(R[x]), Not(R[x] == '*')), 0, length(R))]
+    for S in Ss:
+        parts.append(implies(is_seqline(S), forall(
+            lambda j, S=S, off=off: implies(And(keep_file(S[j]), Not(S[j] == '*')),
+                                            And(off + n_keep(S, 0, j) < length(R), R[off + n_keep(S, 0, j)] == S[j])), 0, length(S))))
+        off = off + ite(is_seqline(S), lambda S=S: n_keep(S, 0, length(S)), lambda: 0)
+    parts.append(And(off - 1 <= length(R), length(R) <= off))
+    return And(*parts)
+
+
+def stripped(filename):
+    from pyvc.models import strip_seq
+    return [SPEC_ENV['strip_of'](l) for l in filename.lines]
+
+
+SPEC_ENV = {}
+SPEC = dict(is_header=is_header, is_seqline=is_seqline, bad_line=bad_line, two_headers=two_headers, any_bad=any_bad, total_stars=total_stars,
+            parsed_ok=parsed_ok)
+_prepare0 = prepare
+
+
+def prepare(v):         # noqa: F811
+    _prepare0(v)
+    SPEC_ENV['strip_of'] = v.interp.spec_env['strip_of']
+    v.interp.spec_env['stripped'] = stripped
+
+
+CONTRACT[PARSER + 'parseSeqFile'] = dict(
+    self=mk_parser, params={'filename': file_of(1), 'silent': ('const', False)},
+    cases=[dict(params={'filename': file_of(m), 'silent': ('const', sl)}) for m in (0, 1, 2) for sl in ((False, True) if m == 1 else (False,))],
+    modifies=[], returns='str',
+    # a second header or a foreign character in a sequence line is always rejected; a '*' may be (exactly when: contract of __final_validation)
+    raises=[('SequenceFileParserException', 'Or(two_headers(stripped(filename)), any_bad(stripped(filename)))')],
+    may_raise=[('SequenceFileParserException', 'total_stars(stripped(filename)) >= 1')],
+    ensures=['parsed_ok(result, stripped(filename))'],
+    call_lemmas={'SequenceFileParser.__final_validation': lambda it, fr, lineno: _final_hints(len(fr.env['filename'].lines))})
+
+
+def _final_hints(m):
+    h = []
+    for i in range(m):
+        S = 'stripped(filename)[%d]' % i
+        h += ['n_keep_strict(%s, length(%s))' % (S, S), 'n_keep_nonneg(%s, 0, length(%s))' % (S, S), 'n_keep_nonneg_all(%s, length(%s))' % (S, S), 'n_keep_onto(%s, length(%s))' % (S, S),
+              'n_star_zero(%s, 0, length(%s))' % (S, S), 'n_star_nonneg(%s, 0, length(%s))' % (S, S)]
+    h += ['n_star_nonneg(seq, 0, length(seq))', 'n_star_zero(seq, 0, length(seq))', 'n_star_zero(seq, 0, length(seq) - 1)',
+          'when(total_stars(stripped(filename)) == 0, nsym_none(seq, "*", 0, length(seq)))']
+    return h
+
+# three-line files: same contract, thorough tier only (82 paths, minutes of solver time)
+CONTRACT[PARSER + 'parseSeqFile#three'] = dict(CONTRACT[PARSER + 'parseSeqFile'], cases=[dict(params={'filename': file_of(3), 'silent': ('const', False)})])
